@@ -293,7 +293,7 @@ def load_known(pid):
 def match_known(v, known):
     import fnmatch
     for e in known:
-        if (e['kind'] == v['kind'] and fnmatch.fnmatchcase(v['site'], e['site'])
+        if (fnmatch.fnmatchcase(v['kind'], e['kind']) and fnmatch.fnmatchcase(v['site'], e['site'])
                 and e['trigger'] == v['trigger']):
             return e
     return None
